@@ -36,7 +36,7 @@ OPS = [  # (name, family, op, trial kind, test kind, k, assembler)
 ]
 POTS = [("lapSL_pot", "laplace", "single_layer", "DP0", None, "dense"), ("helSL_pot", "helmholtz", "single_layer", "P1", 1.3 + 0.2j, "dense"),
         ("lapSL_pot_fmm", "laplace", "single_layer", "DP0", None, "fmm")]
-KA = {"DP0": ("DP", 0), "P1": ("P", 1)}
+KA = {"DP0": ("DP", 0), "P1": ("P", 1), "RWG": ("RWG", 0), "SNC": ("SNC", 0)}
 
 
 def meshes(M):
@@ -533,7 +533,9 @@ def main():
 
     # ------------------------------------------------------------------ single precision
     if not ctx.worker:
-        for cfg in (OPS[0], OPS[2]) if not ctx.quick else (OPS[0],):
+        extra_single = [("lapW_dense", "laplace", "hypersingular", "P1", "P1", None, "dense"), ("mhelKt_dense", "modified_helmholtz", "adjoint_double_layer", "P1", "DP0", 0.7, "dense"),
+                        ("maxE_dense", "maxwell", "electric_field", "RWG", "SNC", 1.1, "default_nonlocal"), ("helK_dense", "helmholtz", "double_layer", "P1", "P1", 1.3 + 0.2j, "dense")]
+        for cfg in (OPS[0], OPS[1], OPS[2]) + (() if ctx.quick else tuple(extra_single)):
             cid = "single_precision:%s" % cfg[0]
             if not ctx.want(cid):
                 continue
@@ -546,6 +548,23 @@ def main():
                 ctx.case(cid, {"config": cfg[0], "rel_dev": dev})
                 if not (dev <= 1e-4):
                     ctx.violation("single_precision:differs_from_double", "%s: %.3e" % (cid, dev), cid)
+        # potentials in single precision
+        spts = ctx.rng("spts").normal(size=(3, 11))
+        spts = spts / np.linalg.norm(spts, axis=0) * 3.1
+        gsp_ = M.to_grid(ms["cube"])
+        for fam, op, kind, k in [("laplace", "single_layer", "DP0", None), ("helmholtz", "double_layer", "P1", 1.3 + 0.2j)] + ([] if ctx.quick else [("modified_helmholtz", "single_layer", "P1", 0.7), ("laplace", "double_layer", "P1", None)]):
+            cid = "single_precision:potential.%s.%s" % (fam, op)
+            if not ctx.want(cid):
+                continue
+            with ctx.guard(cid, "single_precision:potential"):
+                sp_ = api.function_space(gsp_, *KA[kind])
+                gf_ = api.GridFunction(sp_, coefficients=ctx.rng(cid).normal(size=sp_.global_dof_count))
+                a = np.asarray(O.potential(api, fam, op, sp_, spts, k, precision="double").evaluate(gf_))
+                b = np.asarray(O.potential(api, fam, op, sp_, spts, k, precision="single").evaluate(gf_))
+                dev = O.rel(a, b)
+                ctx.case(cid, {"potential": fam + "." + op, "rel_dev": dev, "single_dtype": str(b.dtype)})
+                if not (dev <= 1e-4):
+                    ctx.violation("single_precision:potential:differs_from_double", "%s: %.3e" % (cid, dev), cid)
         ctx.lap("single_precision")
 
     # ------------------------------------------------------------------ fresh interpreter sample
